@@ -150,7 +150,10 @@ def obj_strategy():
         # the optional fields at their default values (rerun 301, skyversion 2, firstfield 0) in every row
         return [dict(r, rerun=301, skyversion=2, firstfield=0) for r in rows]
     base = st.lists(tuple_strategy(OBJ_FIELDS), min_size=1, max_size=5)
-    return st.one_of(base, base, base.map(defaults)).map(lambda rows: dict(rows=rows))
+    def early(rows):
+        # early runs (94, 125, ...) fit an 8-bit column (round 9)
+        return [dict(r, run=r['run'] % 256) for r in defaults(rows)]
+    return st.one_of(base, base, base.map(defaults), base.map(early)).map(lambda rows: dict(rows=rows))
 
 
 def obj_body(case):
@@ -194,6 +197,13 @@ def obj_body(case):
             check([int(x) for x in np.ravel(gn)] == exp, 'objid-narrow-integer-arrays-differ', lambda: dict(rows=rows, got=[int(x) for x in np.ravel(gn)], want=exp,
                                                                                                       dtypes={n: str(a.dtype) for n, a in narr.items()}))
             check(np.asarray(gn).dtype == np.int64, 'objid-array-dtype', lambda: dict(got=str(np.asarray(gn).dtype), dtypes=label))
+        if all(r['rerun'] == 301 and r['skyversion'] == 2 and r['firstfield'] == 0 for r in rows):
+            # the same narrow arrays with the optional fields left at / given as their scalar defaults
+            for kw in ({}, dict(rerun=301), dict(skyversion=2, firstfield=0)):
+                gd = call(sdss_objid, narr['run'], narr['camcol'], narr['field'], narr['objnum'], **kw)
+                with judge('objid-array-defaults-' + label):
+                    check([int(x) for x in np.ravel(gd)] == exp, 'objid-narrow-integer-arrays-with-defaults-differ',
+                          lambda: dict(rows=rows, got=[int(x) for x in np.ravel(gd)], want=exp, kw=kw, dtypes={n: str(a.dtype) for n, a in narr.items()}))
     note_label('narrow-dtypes')
     n = len(exp)
     shp = (n, 1) if n % 2 else (2, n // 2)
@@ -330,12 +340,21 @@ def reject_strategy():
         if conv == 'array' and n < 2:
             rows = rows + [draw(tuple_strategy(fields))]        # arrays mix valid and invalid elements
             n = 2
-        case = dict(which=which, mode=mode, rows=rows, conv=conv)
+        case = dict(which=which, mode=mode, rows=rows, conv=conv, adt=draw(st.sampled_from(['i8', 'i8', 'narrow-signed', 'narrow-unsigned'])))
         if mode == 'range':
             name, lo, hi, sh = draw(st.sampled_from(fields))
             case['field'] = name
             case['row'] = draw(st.integers(0, n - 1))
             case['value'] = draw(bad_value(lo, hi))
+            if name == 'mjd' and draw(st.integers(0, 1)) == 0:
+                # an MJD far below 50000 (a reduced Julian date given by mistake, a zero from an empty table cell)
+                case['value'] = draw(st.sampled_from([0, 1, 100, 847, 848, 5359, 15000, 16383, 49999]))
+                case['adt'] = draw(st.sampled_from(['narrow-unsigned', 'narrow-unsigned', 'narrow-signed', 'i8']))
+                if case['adt'] == 'narrow-unsigned':
+                    # MJDs up to 65535 fit an unsigned 16-bit column
+                    case['conv'] = 'array'
+                    for r in rows:
+                        r['mjd'] = min(r['mjd'], 65535)
             if which == 'spec' and name == 'line':
                 case['low'] = draw(st.sampled_from(['line', 'index']))
         elif mode == 'run2d-string':
@@ -372,7 +391,15 @@ def reject_body(case):
         if mode == 'run2d-string':
             args['run2d'] = case['text']
     else:
-        args = {n: np.array([r[n] for r in rows], dtype=np.int64) for n, lo, hi, sh in fields}
+        def dtype_for(vals):
+            # round 9: field arrays in the narrowest integer type that holds their values (table columns are 16 / 32 bits wide);
+            # the out-of-range value is representable in that type, so it must be refused, not wrapped
+            kinds = dict(i8=('i8',)).get(case.get('adt', 'i8')) or (('i2', 'i4', 'i8') if case['adt'] == 'narrow-signed' or min(vals) < 0 else ('u2', 'u4', 'u8'))
+            for dt in kinds:
+                if np.iinfo(dt).min <= min(vals) and max(vals) <= np.iinfo(dt).max:
+                    return dt
+            return 'i8'
+        args = {n: np.array([r[n] for r in rows], dtype=dtype_for([r[n] for r in rows])) for n, lo, hi, sh in fields}
         if mode == 'length':
             f = case['field']
             args[f] = np.concatenate([args[f], args[f][:1].repeat(case['extra'])])
@@ -395,7 +422,7 @@ def reject_body(case):
 
 
 def reject_classify(case):
-    return ['%s:%s:%s' % (case['which'], case['mode'], case.get('field', '')), 'conv:' + case['conv']]
+    return ['%s:%s:%s' % (case['which'], case['mode'], case.get('field', '')), 'conv:' + case['conv']] + (['arrays:' + case.get('adt', 'i8')] if case['conv'] == 'array' else [])
 
 
 SUBCHECKS = [
